@@ -358,7 +358,26 @@ def run(ctx):
                     if not rid_:
                         continue
                     rf_ = guard_facts(fa10, rid_[0])
-                    if all(_contradict(fa10, guard_facts(fa10, fa10.cfg.id_of(b_)), rf_) for b_ in pre_[A_]):
+                    def _bind_facts(b_):
+                        # `empty(0 if C else N)` allocates rows only where C is false: a virtual guard of the binding
+                        out_ = list(guard_facts(fa10, fa10.cfg.id_of(b_)))
+                        a0_ = b_.value.args[0]
+                        if isinstance(a0_, ast.Name):
+                            # the size is a local set to 0 in one branch and to the count in the other
+                            bs_ = [s2_ for s2_ in walk_no_nested(f_.node) if isinstance(s2_, ast.Assign) and len(s2_.targets) == 1 and isinstance(s2_.targets[0], ast.Name) and s2_.targets[0].id == a0_.id]
+                            nz_ = [s2_ for s2_ in bs_ if not (isinstance(s2_.value, ast.Constant) and s2_.value.value == 0)]
+                            if len(bs_) == 2 and len(nz_) == 1:
+                                out_ += list(guard_facts(fa10, fa10.cfg.id_of(nz_[0])))
+                            elif len(bs_) == 1 and isinstance(bs_[0].value, ast.IfExp):
+                                a0_ = bs_[0].value
+                        if isinstance(a0_, ast.IfExp):
+                            if isinstance(a0_.body, ast.Constant) and a0_.body.value == 0:
+                                out_.append((a0_.test, False))
+                            elif isinstance(a0_.orelse, ast.Constant) and a0_.orelse.value == 0:
+                                out_.append((a0_.test, True))
+                        return out_
+
+                    if all(_contradict(fa10, _bind_facts(b_), rf_) for b_ in pre_[A_]):
                         continue  # the pre-allocated binding cannot reach this read
                     n10 += 1
                     up_ = par_.get(id(r_))
